@@ -53,6 +53,7 @@ var c18Kinds = []c18Kind{
 	{"m1-pkg", "m1", "", "pkg/p.go", true, "example.com/m1", "example.com/m1/pkg.P"},
 	{"m1-pkg-deep", "m1", "", "pkg/deep/d.go", true, "example.com/m1", "example.com/m1/pkg/deep.D"},
 	{"m1-missing-file", "m1", "", "pkg/absent.go", false, "example.com/m1", "example.com/m1/pkg.Absent"},
+	{"m1-testmain-under-module", "m1", "", "pkg/_test/_testmain.go", false, "example.com/m1", "main.main"},
 	{"m2", "m2", "", "x.go", true, "example.com/m2", "example.com/m2.X"},
 	{"m1x-sibling-module", "m1x", "", "y.go", true, "example.com/m1x", "example.com/m1x.Y"},
 	{"m1x-sibling-module-sub", "m1x", "", "lib/l.go", true, "example.com/m1x", "example.com/m1x/lib.L"},
@@ -269,6 +270,15 @@ func (c c18Cfg) expect(root string) (wants []c18Want, remoteGOROOT string, remot
 				w.must = true
 			}
 		case "m1", "m2", "m1x":
+			if strings.HasSuffix(k.rel, "_test/_testmain.go") {
+				// the go-test generated main stays standard library wherever its path lies
+				// (its module is still detected through the go.mod above it)
+				if !isCreator {
+					gomods[c18LocalRoot(root, k.root)] = k.mod
+				}
+				w = c18Want{loc: Stdlib, must: true}
+				break
+			}
 			mr := c18LocalRoot(root, k.root)
 			if !isCreator {
 				gomods[mr] = k.mod
@@ -377,7 +387,7 @@ func c18CheckOpts(root string, c c18Cfg, key string, analyse bool) *h.Viol {
 			}
 			return mk("location:"+tag+k.name, fmt.Sprintf("frame %s%s (%s): Location=%s want %s", tag, k.name, call.RemoteSrcPath, call.Location, w.loc))
 		}
-		if k.root == "testmain" {
+		if k.root == "testmain" || strings.HasSuffix(k.rel, "_test/_testmain.go") {
 			continue
 		}
 		if call.LocalSrcPath != w.local {
